@@ -228,7 +228,7 @@ theorem pcrLoop_fixSame (fuel : Nat) (ss : List Stmt) {ss' : List Stmt} (h : pcr
 
 /-- the translated statement built from the parsed statement `s0`, the resolved operand `o` and the package `p` -/
 def mkTranslated (s0 : Stmt) (o : Operand) (p : Pkg) : Stmt :=
-  { s0 with operand := o, pkg := p, fixedSize := !(p.needsRes || !p.choices.isEmpty) }
+  { s0 with operand := o, pkg := p, fixedSize := p.choices.isEmpty }
 
 /-- the history of the final statement `s` of index `i` -/
 structure Trace {fs : Files} {lines : List Str} {a : Assembly} (st : Stages fs lines a) (i : Nat) (s : Stmt) where
